@@ -79,8 +79,33 @@ def lib():
     return _LIB
 
 
+class _Stream(list):
+    """the stream as a list, plus (lazily) the same notes as a NoteData object"""
+
+    nd = None
+
+
 def real_notes(L, notes):
-    return [L.Note(beat=L.Beat(n[0]), column=n[1], note_type=L.T[n[2]], player=n[3], keysound_index=n[4]) for n in notes]
+    return _Stream(L.Note(beat=L.Beat(n[0]), column=n[1], note_type=L.T[n[2]], player=n[3], keysound_index=n[4]) for n in notes)
+
+
+def as_form(rnotes, fi):
+    """the same note stream handed over in another shape: every documented input is an Iterable[Note], so a list, a
+    one-shot iterator, a generator and a NoteData object must all be treated alike (fi: 0 list, 1 iterator, 2 NoteData,
+    3 generator)"""
+    fi %= 4
+    if fi == 0 or not isinstance(rnotes, _Stream):
+        return rnotes
+    if fi == 1:
+        return iter(rnotes)
+    if fi == 3:
+        return (n for n in rnotes)
+    if rnotes.nd is None:
+        from simfile.notes import NoteData
+
+        cols = max([n.column for n in rnotes] + [0]) + 1
+        rnotes.nd = NoteData.from_notes(list(rnotes), cols)
+    return rnotes.nd
 
 
 def show(notes, limit=40):
@@ -118,6 +143,10 @@ def first_diff(got, exp):
     return min(len(got), len(exp))
 
 
+_POLS = ("raise", "keep", "drop")
+FORM_NAMES = ("", " as a one-shot iterator", " as a NoteData object", " as a generator")
+
+
 def eval_group(L, M, rnotes, include, mode, join, oh, ot, pass_policies=True, pass_mode=True):
     """one evaluation of group_notes against the model; returns number of oracle evaluations"""
     kw = {}
@@ -131,12 +160,13 @@ def eval_group(L, M, rnotes, include, mode, join, oh, ot, pass_policies=True, pa
         kw["orphaned_head"] = L.POL[oh]
         kw["orphaned_tail"] = L.POL[ot]
     exp_kind, exp = M.groups(mode, join, oh, ot)
+    fi = MG.MODES.index(mode) + 2 * bool(join) + _POLS.index(oh) + 3 * _POLS.index(ot) + (0 if pass_policies else 1)
 
     def opts():
-        return f"include={'all (omitted)' if include is None else include!r} same_beat={mode} join={join} orphaned_head={oh} orphaned_tail={ot}" + ("" if pass_policies else " (policies omitted)")
+        return (f"stream passed{FORM_NAMES[fi % 4]}, " if fi % 4 and isinstance(rnotes, _Stream) else "") + f"include={'all (omitted)' if include is None else include!r} same_beat={mode} join={join} orphaned_head={oh} orphaned_tail={ot}" + ("" if pass_policies else " (policies omitted)")
 
     try:
-        raw = list(L.group_notes(rnotes, **kw))
+        raw = list(L.group_notes(as_form(rnotes, fi), **kw))
     except L.Orphaned as e:
         if exp_kind != "raise":
             raise Violation(f"group_notes on {show(M.notes)} with {opts()} raised OrphanedNoteException({e}) but no orphan falls under a RAISE policy; expected {show_groups(exp)}")
@@ -174,14 +204,18 @@ def eval_counts(L, notes, rnotes, head_pairs=MG.POLICY_PAIRS):
     n = 0
     _, dgroups = MG.Model(notes, MG.COUNT_DEFAULT).groups("all", False)
     for k in (1, 2, 3, 4):
-        got, exp = C.count_steps(rnotes, same_beat_minimum=k), MG.count_groups(dgroups, k)
+        got, exp = C.count_steps(as_form(rnotes, k), same_beat_minimum=k), MG.count_groups(dgroups, k)
         if got != exp:
             raise Violation(f"count_steps({show(notes)}, same_beat_minimum={k}) = {got}, expected {exp}")
     for name, fn, k in (("count_steps", C.count_steps, 1), ("count_jumps", C.count_jumps, 2), ("count_hands", C.count_hands, 3)):
-        got, exp = fn(rnotes), MG.count_groups(dgroups, k)
+        for fi in (0, 2, k):
+            got, exp = fn(as_form(rnotes, fi)), MG.count_groups(dgroups, k)
+            if got != exp:
+                raise Violation(f"{name}({show(notes)}{FORM_NAMES[fi % 4]}) = {got}, expected {exp} (beats carrying >= {k} of tap/hold head/roll head/lift)")
+    for fi in (0, 1, 2):
+        got, exp = C.count_mines(as_form(rnotes, fi)), MG.count_mines(notes)
         if got != exp:
-            raise Violation(f"{name}({show(notes)}) = {got}, expected {exp} (beats carrying >= {k} of tap/hold head/roll head/lift)")
-    got, exp = C.count_mines(rnotes), MG.count_mines(notes)
+            break
     if got != exp:
         raise Violation(f"count_mines({show(notes)}) = {got}, expected {exp}")
     n += 8
@@ -196,7 +230,7 @@ def eval_counts(L, notes, rnotes, head_pairs=MG.POLICY_PAIRS):
 
             n += 1
             try:
-                got = fn(rnotes, **kw)
+                got = fn(as_form(rnotes, n), **kw)
             except L.Orphaned as e:
                 if kind != "raise":
                     raise Violation(f"{what()} raised OrphanedNoteException({e}), expected {exp}")
@@ -253,7 +287,7 @@ def full_stream_check(L, notes, include, count_too=True):
         for mode in MG.MODES:
             _, g = M.groups(mode, False)
             for k in (1, 2, 3, 4):
-                got = L.C.count_steps(rnotes, include_note_types=inc, same_beat_notes=L.MODE[mode], same_beat_minimum=k)
+                got = L.C.count_steps(as_form(rnotes, k + MG.MODES.index(mode)), include_note_types=inc, same_beat_notes=L.MODE[mode], same_beat_minimum=k)
                 exp = MG.count_groups(g, k)
                 need(got == exp, lambda: f"count_steps({show(notes)}, include={include!r}, same_beat={mode}, same_beat_minimum={k}) = {got}, expected {exp}")
                 n += 1
